@@ -186,6 +186,30 @@ pub fn check_case(c: &Case) -> Option<(String, String)> {
     if let Some(v) = check_merge(c, &out, !single, "sequential-or-single") {
         return Some(v);
     }
+    // the sources arrive through adapters without an exact size hint (lower bound 0 = unknown)
+    {
+        let its = c.sources.iter().map(|v| boxed(v)).filter(|_| true);
+        let out: Vec<DltMessage> = SequentialMultiIterator::new_or_single_it(c.start, its).collect();
+        if let Some(v) = check_merge(c, &out, !single, "sequential-or-single-filter") {
+            return Some(v);
+        }
+        let mut k = 0usize;
+        let srcs = &c.sources;
+        let its = std::iter::from_fn(move || {
+            let r = srcs.get(k).map(|v| boxed(v));
+            k += 1;
+            r
+        });
+        let out: Vec<DltMessage> = SequentialMultiIterator::new_or_single_it(c.start, its).collect();
+        if let Some(v) = check_merge(c, &out, !single, "sequential-or-single-from_fn") {
+            return Some(v);
+        }
+        let its = c.sources.iter().map(|v| boxed(v)).filter(|_| true);
+        let out: Vec<DltMessage> = SortingMultiReaderIterator::new_or_single_it(c.start, its.collect::<Vec<_>>()).collect();
+        if let Some(v) = check_merge(c, &out, !single, "sorting-or-single-filter") {
+            return Some(v);
+        }
+    }
     // a Vec based iterator of iterators (exact size hint 1 -> single)
     let vits: Vec<Box<dyn Iterator<Item = DltMessage>>> = c.sources.iter().map(|v| boxed(v)).collect();
     let out: Vec<DltMessage> = SequentialMultiIterator::new_or_single_it(c.start, vits.into_iter()).collect();
